@@ -143,7 +143,12 @@ class CompositeTransform(SpatialTransform):
     ) -> Union[TCompositeTransform, Optional[Tensor]]:
         r"""Get or set data tensor on which transformations are conditioned."""
         if args or kwargs:
-            return shallow_copy(self).condition_(*args, **kwargs)
+            copy = shallow_copy(self)
+            # Shallow copy shares the composed transformations, condition copies of these instead
+            copy._transforms = ModuleDict(
+                {name: shallow_copy(transform) for name, transform in self._transforms.items()}
+            )
+            return copy.condition_(*args, **kwargs)
         return self._args, self._kwargs
 
     def condition_(self: TCompositeTransform, *args, **kwargs) -> TCompositeTransform:
